@@ -194,8 +194,23 @@ def rule_rest(ck, lib):
         for site, info in pps.loops.items():
             allv.update(info["vars"])
         names = sorted(set(allv.values()))
-        ck.judge(len(names) == 4, "C06-S", "process:loop-carried-state", "loop-carried locals of process: %s" % names,
-                 "process carries %d mutable locals across iterations (expected command buffer, response buffer and two offsets): %s" % (len(names), names))
+        # inventory by type: byte buffers and usize offsets only (their values are pinned by the C07-K rules); anything
+        # else - a flag, an Option, an error value - would be memory of earlier messages
+        tys = {}
+        pb = lib.body(PROCESS)
+        for xn in hir.walk(pb["value"]):
+            if xn.get("k") == "Block":
+                for st_ in xn["stmts"]:
+                    if st_["k"] == "Let":
+                        for pn in hir.walk_pat(st_["pat"]) if hasattr(hir, "walk_pat") else [st_["pat"]]:
+                            if pn.get("k") == "Bind" and pn.get("id") in allv:
+                                tys[pn["id"]] = pn.get("ty", "?")
+        import re
+        odd = sorted("%s: %s" % (allv[i], tys.get(i, "?")) for i in allv
+                     if not (tys.get(i) == "usize" or re.match(r"\[u8; \w+\]$", tys.get(i, "")) or re.match(r"heapless::(vec::)?Vec<u8, \w+>$", tys.get(i, ""))))
+        n_buf = len([i for i in allv if tys.get(i) != "usize"])
+        ck.judge(not odd and n_buf == 2, "C06-S", "process:loop-carried-state", "loop-carried locals of process: %s" % sorted("%s: %s" % (allv[i], tys.get(i)) for i in allv),
+                 "process carries state across iterations other than the command buffer, the response buffer and usize offsets: %s" % (odd or names))
 
 
 def is_converted(arg, errp):
